@@ -9,7 +9,7 @@ RULE = (
     "strings, isexec False), hash under md5 / md5-dos2unix / sha256 / blake3 with and without '.dir', hash absent or with a None "
     "value, loaded in {None, True, False}, non-ASCII / control-character key parts, nested keys, a key that is a prefix of "
     "another; persisted through write_json/read_json, write_db/read_db and the SQLite-backed index (set, commit, close, reopen; "
-    "also the empty root key), plus dict round trips of Meta / HashInfo / DataIndexEntry and Tree.from_list(as_list(with_meta)). "
+    "also the empty root key; also an unloaded directory entry expanded lazily from a real directory object before commit), plus dict round trips of Meta / HashInfo / DataIndexEntry and Tree.from_list(as_list(with_meta)). "
     "non-trivial = at least one entry with metadata and hash; distinct = hash of the projected index"
 )
 ASSUMPTIONS = [
@@ -18,7 +18,7 @@ ASSUMPTIONS = [
     "with-metadata listings are parsed back for hash names that Meta has a field for (md5, md5-dos2unix, etag, checksum); other names cannot be represented in that form",
 ]
 MONITORS = "projection of every entry compared before/after each persistent form"
-REQUIRED_COUNTERS = ["json_roundtrips", "db_roundtrips", "sqlite_roundtrips", "dict_roundtrips", "tree_list_roundtrips", "sqlite_root_key_cases", "falsy_field_entries"]
+REQUIRED_COUNTERS = ["sqlite_lazy_roundtrips", "json_roundtrips", "db_roundtrips", "sqlite_roundtrips", "dict_roundtrips", "tree_list_roundtrips", "sqlite_root_key_cases", "falsy_field_entries"]
 
 
 def mproj(m):
@@ -123,7 +123,7 @@ def run_shard(ctx):
     for case, rng in ctx.cases(ctx.plan["n"]):
 
         def one(case=case, rng=rng):
-            form = ["json", "db", "sqlite", "dicts", "tree"][case % 5]
+            form = ["json", "db", "sqlite", "dicts", "tree", "sqlite-lazy"][case % 6]
             res.evaluated()
             if form in ("json", "db"):
                 entries = rindex(rng, False)
@@ -180,6 +180,51 @@ def run_shard(ctx):
                 for f in os.listdir(d):
                     if f.startswith(f"idx{case}.db"):
                         os.unlink(os.path.join(d, f))
+            elif form == "sqlite-lazy":
+                # an unloaded directory entry that is expanded lazily between set and commit: what is persisted
+                # must be what the live index shows
+                from dvc_data.index import ObjectStorage
+
+                from .. import env, indexlab
+
+                dd = ctx.fresh("lz")
+                cache = env.local_odb(os.path.join(dd, "cache"))
+                files, _e = gen.tree(rng, depth=rng.randrange(1, 3), fanout=3, odd=0.3, min_files=2, empty_dirs=False)
+                top = gen.name(rng, odd=0.3)
+                files = {(top, *k): v for k, v in files.items()}
+                indexlab.save_tree_to_cache(ctx, cache, {k[1:]: v for k, v in files.items()}, dd)
+                oid = indexlab.put_dir_object(cache, files, (top,))
+                p = os.path.join(dd, "lazy.db")
+                idx = DataIndex.open(p)
+                idx.storage_map.add_cache(ObjectStorage(key=(), odb=cache))
+                idx[(top,)] = DataIndexEntry(key=(top,), meta=Meta(isdir=True), hash_info=HashInfo("md5", oid))
+                extra = rindex(rng, False)
+                for k, e in extra.items():
+                    if k[0] != top:
+                        if e.meta and e.meta.isdir:
+                            e.loaded = True  # nothing to expand for these (their random ids are in no store)
+                        idx[k] = e
+                idx.commit()
+                how = rng.choice(["iteritems", "getitem", "ls", "load"])
+                if how == "iteritems":
+                    list(idx.iteritems())
+                elif how == "getitem":
+                    _ = idx[sorted(files)[0]]
+                elif how == "ls":
+                    list(idx.ls((top,), detail=False))
+                else:
+                    idx.load()
+                live = {k: proj(e) for k, e in idx.iteritems()}
+                res.nontrivial("sqlite-lazy", sorted(live.items(), key=repr), how)
+                res.sample({"form": form, "loaded_by": how, "entries": len(live)})
+                idx.commit()
+                idx.close()
+                back = DataIndex.open(p)  # no storage attached: walking it shows exactly what was persisted
+                res.count("sqlite_lazy_roundtrips")
+                compare(live, back, "sqlite-lazy", case)
+                back.close()
+                env.reset_staging()
+                ctx.drop(dd)
             elif form == "dicts":
                 for _ in range(20):
                     m = rmeta(rng)
